@@ -16,6 +16,15 @@ def main():
         return 2
     for v in ('plain', 'asan'):
         cexec.w2c2_binary(v)
+    from . import sched
+    probs = sched.selftest()
+    for pr in probs:
+        print('  ' + pr)
+    if probs:
+        print('VSCHED-SELFTEST-FAILED')
+        return 2
+    print('vsched self-test ok (unlocked counter {1,2}; locked {2}; if-instead-of-while fails only with spurious wake-ups; '
+          'lock-order inversion reaches deadlock)')
     print('setup ok in %.1fs' % (time.time() - t0))
     return 0
 
